@@ -24,6 +24,7 @@ type VaultKeeper interface {
 	DeleteVault(ctx sdk.Context, id uint64)
 	DeleteAddressFromAppExtendedPairVaultMapping(ctx sdk.Context, extendedPairID uint64, userVaultID uint64, appMappingID uint64)
 	GetStableMintVaults(ctx sdk.Context) (stableVaults []vaulttypes.StableMintVault)
+	DeleteStableMintVault(ctx sdk.Context, id uint64)
 	UpdateCollateralLockedAmountLockerMapping(ctx sdk.Context, appMappingID uint64, extendedPairID uint64, amount sdk.Int, changeType bool)
 	UpdateTokenMintedAmountLockerMapping(ctx sdk.Context, appMappingID uint64, extendedPairID uint64, amount sdk.Int, changeType bool)
 	DeleteUserVaultExtendedPairMapping(ctx sdk.Context, address string, appID uint64, pairVaultID uint64)
